@@ -56,6 +56,11 @@ def typeName : AnyClaim → String
   | stf _ => "MsgSendToFxClaim" | bc _ => "MsgBridgeCallClaim" | bcr _ => "MsgBridgeCallResultClaim"
   | ste _ => "MsgSendToExternalClaim" | bt _ => "MsgBridgeTokenClaim" | osu _ => "MsgOracleSetUpdatedClaim"
 
+/-- `GetBlockHeight()`: the external block height the event was seen at -/
+def blockHeight : AnyClaim → Nat
+  | stf c => c.BlockHeight | bc c => c.BlockHeight | bcr c => c.BlockHeight | ste c => c.BlockHeight | bt c => c.BlockHeight
+  | osu c => c.BlockHeight
+
 /-- the types `AttestationHandler` stores for `ExecuteClaim` instead of executing them at once: the REGENERATED case list of
 the `SavePendingExecuteClaim` clause of its type switch -/
 def deferred (c : AnyClaim) : Bool := FxVerif.Gen.C03.storedTypes.contains c.typeName
@@ -116,6 +121,8 @@ structure Exec where
 structure AState (η : Type) where
   atts : List (Att η) := []
   lastObserved : Nat := 0
+  /-- `SetLastObservedBlockHeight`: the external block height of the last observed event -/
+  lastHeight : Nat := 0
   lastByOracle : List (Nat × Nat) := []
   /-- power of the oracles that `GetOracle` finds -/
   powers : List (Nat × Nat) := []
@@ -218,12 +225,14 @@ def trySites (le : η → η → Bool) (s : AState η) (a1 : Att η) (c : AnyCla
     | some a => some (a, handed a c t.claim)
     | none => trySites le s a1 c r
 
-/-- the writes of `TryAttestation(att, claim)` once the threshold is reached: last observed nonce, the attestation marked
+/-- the writes of `TryAttestation(att, claim)` once the threshold is reached: last observed nonce and external block height
+(both taken from `claim`, the object handed in), the attestation marked
 observed and stored under the key of `claim` (`SetAttestation(claim.GetEventNonce(), claim.ClaimHash(), att)`), and the
 handler run on `claim` -/
 def observe (key : AnyClaim → η) (s : AState η) (a : Att η) (ch : AnyClaim) : AState η :=
   { s with atts := setAtt s.atts { a with observed := true, nonce := ch.nonce, hash := key ch },
            lastObserved := ch.nonce,
+           lastHeight := ch.blockHeight,
            executed := s.executed ++ [{ claim := ch, tallied := a.votes }],
            pending := if ch.deferred then setPending s.pending ch.nonce ch else s.pending }
 
